@@ -434,7 +434,10 @@ Print Assumptions C13_switch_supports.
    or the cell has a node; the hand-built switch kernel and the factory agree on
    class and eligibility for every type and flag; create_dynamic_kernel hands
    (natural kernel, anthropogenic kernel, use_anthropogenic_kernel,
-   percent_natural_dispersal) to the mix in this order. *)
+   percent_natural_dispersal) to the mix in this order, builds the anthropogenic
+   kernel whenever it is enabled (it may pass a null pointer otherwise), and the
+   mix asks the anthropogenic kernel for eligibility only when it is enabled
+   (|| short-circuits), so a kernel that was left out is never dereferenced. *)
 Theorem C13_factory_eligibility : forall k stoch node_at,
   factory_natural_eligible k stoch node_at = true /\
   factory_anthropogenic_eligible k stoch node_at =
@@ -449,7 +452,11 @@ Theorem C13_construction_routes_agree : forall ty stoch node_at,
 Proof. exact routes_agree. Qed.
 Print Assumptions C13_construction_routes_agree.
 
-Theorem C13_dynamic_kernel_arguments : dynamic_kernel_args = dynamic_kernel_args_spec.
+Theorem C13_dynamic_kernel_arguments :
+  dynamic_kernel_args = dynamic_kernel_args_spec /\
+  dynamic_kernel_anthro_built true = true /\
+  (forall use, mix_queries_eligibility use = use) /\
+  (forall use, dynamic_mix_null_dereference use = false).
 Proof. exact dynamic_kernel_arguments. Qed.
 Print Assumptions C13_dynamic_kernel_arguments.
 
